@@ -253,6 +253,121 @@ func vfC30ExecRTP(c vfC30Case) {
 	vfC30Drain(pcB)
 }
 
+// vfC30ExecLive: a really connecting pair whose offer and/or answer text is edited in flight
+// (c.Lines are edit commands "O|A:sub:old=>new", "O|A:drop:prefix", "O|A:ins:afterPrefix|line");
+// the work queued behind ICE/DTLS start (startRTP, receivers, SCTP) runs on a live connection.
+func vfC30ExecLive(c vfC30Case) {
+	var me *MediaEngine
+	if c.Local >= 3 {
+		// small MediaEngine (VP8 + Opus only): one renamed codec leaves a kind without any common codec
+		me = &MediaEngine{}
+		_ = me.RegisterCodec(RTPCodecParameters{RTPCodecCapability: RTPCodecCapability{MimeType: MimeTypeVP8, ClockRate: 90000}, PayloadType: 96}, RTPCodecTypeVideo)
+		_ = me.RegisterCodec(RTPCodecParameters{RTPCodecCapability: RTPCodecCapability{MimeType: MimeTypeOpus, ClockRate: 48000, Channels: 2}, PayloadType: 111}, RTPCodecTypeAudio)
+	}
+	c.Local %= 3
+	api := vfPairAPI(nil, me)
+	pcA, err := api.NewPeerConnection(Configuration{SDPSemantics: SDPSemantics(c.Semantics)})
+	if err != nil {
+		return
+	}
+	pcB, err := api.NewPeerConnection(Configuration{SDPSemantics: SDPSemantics(c.Semantics)})
+	if err != nil {
+		_ = pcA.Close()
+		return
+	}
+	defer func() { vfC30Drain(pcA); vfC30Drain(pcB) }()
+	for _, pc := range []*PeerConnection{pcA, pcB} {
+		pc.OnDataChannel(func(*DataChannel) {})
+		pc.OnTrack(func(t *TrackRemote, _ *RTPReceiver) {
+			go func() {
+				buf := make([]byte, 1500)
+				for {
+					if _, _, err := t.Read(buf); err != nil {
+						return
+					}
+				}
+			}()
+		})
+	}
+	var tracks []*TrackLocalStaticRTP
+	addTrack := func(pc *PeerConnection, mime, id string) {
+		tr, err := NewTrackLocalStaticRTP(RTPCodecCapability{MimeType: mime}, id, "s")
+		if err == nil {
+			if _, err = pc.AddTrack(tr); err == nil {
+				tracks = append(tracks, tr)
+			}
+		}
+	}
+	switch c.Local {
+	case 0:
+		addTrack(pcA, MimeTypeVP8, "va")
+	case 1:
+		addTrack(pcA, MimeTypeVP8, "va")
+		addTrack(pcA, MimeTypeOpus, "aa")
+		addTrack(pcB, MimeTypeOpus, "ab")
+	default:
+		// the offerer only receives: a section it cannot use does not stop it in startRTPSenders,
+		// so the receivers are started once the transports are up
+		_, _ = pcA.AddTransceiverFromKind(RTPCodecTypeVideo, RTPTransceiverInit{Direction: RTPTransceiverDirectionRecvonly})
+		_, _ = pcA.AddTransceiverFromKind(RTPCodecTypeAudio, RTPTransceiverInit{Direction: RTPTransceiverDirectionRecvonly})
+		addTrack(pcB, MimeTypeVP8, "vb")
+		addTrack(pcB, MimeTypeOpus, "ab")
+	}
+	_, _ = pcA.CreateDataChannel("d", nil)
+	munge := func(sdp string, isOffer bool) string {
+		side := "A:"
+		if isOffer {
+			side = "O:"
+		}
+		lines := strings.Split(strings.ReplaceAll(sdp, "\r\n", "\n"), "\n")
+		for _, cmd := range c.Lines {
+			if !strings.HasPrefix(cmd, side) {
+				continue
+			}
+			cmd = cmd[2:]
+			switch {
+			case strings.HasPrefix(cmd, "sub:"):
+				if parts := strings.SplitN(cmd[4:], "=>", 2); len(parts) == 2 && parts[0] != "" {
+					for i := range lines {
+						lines[i] = strings.ReplaceAll(lines[i], parts[0], parts[1])
+					}
+				}
+			case strings.HasPrefix(cmd, "drop:"):
+				var keep []string
+				for _, l := range lines {
+					if cmd[5:] == "" || !strings.HasPrefix(l, cmd[5:]) {
+						keep = append(keep, l)
+					}
+				}
+				lines = keep
+			case strings.HasPrefix(cmd, "ins:"):
+				if parts := strings.SplitN(cmd[4:], "|", 2); len(parts) == 2 {
+					for i, l := range lines {
+						if strings.HasPrefix(l, parts[0]) {
+							lines = append(lines[:i+1:i+1], append([]string{parts[1]}, lines[i+1:]...)...)
+							break
+						}
+					}
+				}
+			}
+		}
+		return strings.Join(lines, "\r\n")
+	}
+	if err := vfPairSignal(pcA, pcB, munge); err != nil {
+		return
+	}
+	vfPairWait(3*time.Second, func() bool {
+		return pcA.ConnectionState() == PeerConnectionStateConnected && pcB.ConnectionState() == PeerConnectionStateConnected
+	})
+	for i := 0; i < 5; i++ {
+		for _, tr := range tracks {
+			_ = tr.WriteRTP(&rtp.Packet{Header: rtp.Header{Version: 2, SequenceNumber: uint16(i), Timestamp: uint32(i) * 3000}, Payload: []byte{0x10, 0, 1, 2, 3}})
+		}
+		time.Sleep(2 * time.Millisecond)
+	}
+	time.Sleep(20 * time.Millisecond)
+}
+
 // TestVerif_C30_Worker executes cases read from stdin, one JSON document per line.
 func TestVerif_C30_Worker(t *testing.T) {
 	if os.Getenv("VERIF_C30_WORKER") != "1" {
@@ -274,6 +389,8 @@ func TestVerif_C30_Worker(t *testing.T) {
 						vfC30ExecCand(c)
 					case "rtp":
 						vfC30ExecRTP(c)
+					case "live":
+						vfC30ExecLive(c)
 					}
 				}()
 				select {
@@ -768,8 +885,32 @@ func vfC30GenRTP(v *vfT) vfC30Case {
 	return c
 }
 
+func vfC30GenLive(v *vfT) vfC30Case {
+	t := v.R
+	c := vfC30Case{Kind: "live", Semantics: rapid.SampledFrom([]int{int(SDPSemanticsUnifiedPlan), int(SDPSemanticsUnifiedPlan), int(SDPSemanticsPlanB), int(SDPSemanticsUnifiedPlanWithFallback)}).Draw(t, "semantics"), Local: rapid.IntRange(0, 5).Draw(t, "local")}
+	n := rapid.IntRange(1, 4).Draw(t, "edits")
+	for i := 0; i < n; i++ {
+		side := rapid.SampledFrom([]string{"O:", "A:", "A:"}).Draw(t, "side")
+		switch rapid.IntRange(0, 3).Draw(t, "edit") {
+		case 0:
+			c.Lines = append(c.Lines, side+"sub:"+rapid.SampledFrom([]string{
+				"VP8/90000=>FANCYCODEC/90000", "VP8/90000=>FANCYCODEC/90000", "/90000=>X/90000", "/90000=>X/90000", "/48000=>X/48000", "/8000=>X/8000", "opus/48000/2=>xopus/48000/2", "rtx/90000=>xrtx/90000", "H264/90000=>H264X/90000", "VP8/90000=>VP8/8000",
+				"a=sendrecv=>a=sendonly", "a=sendrecv=>a=recvonly", "a=sendrecv=>a=inactive", "a=recvonly=>a=sendrecv", "UDP/TLS/RTP/SAVPF=>RTP/SAVPF",
+				"a=setup:actpass=>a=setup:passive", "a=setup:active=>a=setup:passive", "a=mid:0=>a=mid:zero", "a=mid:1=>a=mid:one", "BUNDLE 0 1=>BUNDLE 0", " 96 = > 196 ",
+				"m=video 9=>m=video 0", "m=audio 9=>m=audio 0", "m=application 9=>m=application 0", "a=sctp-port:5000=>a=sctp-port:0", "apt=96=>apt=97", "apt=96=>apt=",
+			}).Draw(t, "sub"))
+		case 1:
+			c.Lines = append(c.Lines, side+"drop:"+rapid.SampledFrom([]string{"a=ssrc", "a=msid", "a=rtcp-fb", "a=fmtp", "a=extmap", "a=rtpmap:97", "a=rtpmap:96", "a=rtpmap", "a=rid", "a=group", "a=rtcp-mux", "a=sctp-port", "a=max-message-size", "a=ssrc-group", "a=sendrecv", "a=recvonly", "a=msid-semantic"}).Draw(t, "drop"))
+		default:
+			after := rapid.SampledFrom([]string{"m=video", "m=audio", "m=application", "a=mid:0", "a=mid:1", "t=0 0"}).Draw(t, "after")
+			c.Lines = append(c.Lines, side+"ins:"+after+"|"+rapid.SampledFrom(vfC30Hostile).Draw(t, "hostile"))
+		}
+	}
+	return c
+}
+
 var vfC30Opts = vfOpts{
-	Rule: "hostile remote inputs executed in a worker subprocess: (sdp) line-level mutations (delete, duplicate, swap, truncate, hostile numbers, hostile attribute lines, drop-all-of-a-kind, unsupported codecs, oversize) of pion-generated and browser-style offers/answers under unified / plan-b / fallback semantics, applied as remote offer (then CreateAnswer + SetLocalDescription + queue drain) or as remote answer; (cand) mutated candidate strings into AddICECandidate; (rtp) hostile RTP/RTCP written through the sender's SRTP session to a connected peer; every case counts as non-trivial when it contains at least one mutation",
+	Rule: "hostile remote inputs executed in a worker subprocess: (sdp) line-level mutations (delete, duplicate, swap, truncate, hostile numbers, hostile attribute lines, drop-all-of-a-kind, unsupported codecs, oversize) of pion-generated and browser-style offers/answers under unified / plan-b / fallback semantics, applied as remote offer (then CreateAnswer + SetLocalDescription + queue drain) or as remote answer; (cand) mutated candidate strings into AddICECandidate; (rtp) hostile RTP/RTCP written through the sender's SRTP session to a connected peer; (live) a pair that really connects while its offer/answer text is edited in flight (codec renames, dropped attribute families, hostile lines), so the work queued behind ICE/DTLS start runs on a live connection; every case counts as non-trivial when it contains at least one mutation",
 	Assumptions: []string{"crash = death of the worker process while the case is in flight (covers panics in background goroutines)", "a hang is reported only with the worker's dump of blocked pion goroutines"},
 }
 
@@ -788,6 +929,12 @@ func TestVerif_C30_RTP(t *testing.T) {
 	defer vfC30Shutdown()
 	defer vfScaleChecks(1, 8)()
 	vfProperty(t, "C30", vfC30Opts, func(v *vfT) vfC30Case { c := vfC30GenRTP(v); v.NonTrivial(); return c }, vfC30Run)
+}
+
+func TestVerif_C30_Live(t *testing.T) {
+	defer vfC30Shutdown()
+	defer vfScaleChecks(1, 6)()
+	vfProperty(t, "C30", vfC30Opts, func(v *vfT) vfC30Case { c := vfC30GenLive(v); v.NonTrivial(); return c }, vfC30Run)
 }
 
 func vfC30Shutdown() {
